@@ -17,9 +17,9 @@ PROPERTY = "C10"
 LEVEL = "exploration"
 EXHAUSTIVE = {"quick": True, "thorough": True}
 MANIFEST = {
-    "level_text": "Exhaustive enumeration of the stated finite domain and more: every civil day of 1950..2100 at eight times of day (offset and UTC read-back), every leap_seconds override 0, 0.5, ..., 60 in every month of 1950..2100, the leap-second table for every (year, month) of 1950..2100 and Delta-T for every (year, month) of -2000..3000, against the literal IERS list. For this finite domain the property is decided completely for the tree it ran on.",
+    "level_text": "Exhaustive enumeration of the stated finite domain and more: every civil day of 1950..2100 at eight times of day (offset and UTC read-back), every leap_seconds override 0, 0.5, ..., 60 in every month of 1950..2100, the leap-second table for every (year, month) of 1950..2100 and Delta-T for every (year, month) of -2000..3000, against the literal IERS list. For this finite domain the property is decided completely for the tree it ran on. Beyond it, 15 000 (quick) / 240 000 (thorough) Hypothesis-generated instants at any time of day (microsecond grid around midnight included), entered in eight ways (fields, tuple, set(), fractional day, datetime, an Epoch as the date - another object or this very one), with utc=True or an override.",
     "level_note": "Trusts the 27 literal IERS dates (self-tested against published TAI-UTC values) and the integer calendar oracle. Tolerances 1 ms as stated; the float JDE resolves 0.04 ms.",
-    "technique": "exhaustive generated-input enumeration vs literal IERS leap-second list (differential oracle)",
+    "technique": "exhaustive generated-input enumeration plus Hypothesis-generated instants vs literal IERS leap-second list (differential oracle, round trip)",
 }
 RULE = ("Enumeration, no sampling: offset and readback clauses take every civil day of every "
         "month of 1950..2100 at 00:00:00, 12:00:00, 23:59:59, 06:30:15.5, 00:00:01, 00:01:09, "
@@ -31,7 +31,7 @@ RULE = ("Enumeration, no sampling: offset and readback clauses take every civil 
         "(year, month) of -2000..3000. A case counts as non-trivial when the month is Jan, "
         "Feb, Jun, Jul or Dec, or the year is 1971, 1972, 2016 or 2017, or an override is given "
         "(the places where the table lookup can go wrong); distinct by (y, m, d, time, override) "
-        "by construction of the enumeration.")
+        "by construction of the enumeration. Generated instants (clause instant) count as non-trivial under the same month/year rule, or with an override, or within 20 ms of midnight; distinct by case hash.")
 ASSUMPTIONS = [
     "oracle: the 27 IERS Bulletin C dates as literals; TT-UTC = 32.184 + 10 + count for civil "
     "dates from 1972-01-01, nothing before",
@@ -48,6 +48,10 @@ ASSUMPTIONS = [
     "sensitivity (development time, tree with fixes_proposed/C10-*.diff applied): 17 of 17 "
     "mutants of mutants/C10.json reported as VIOLATION by the quick tier",
     "Epoch.utc2local and the local= keyword are excluded (clock dependent)",
+    "instant clause (generated, beyond the stated grid): any time of day to 1 us, eight ways of "
+    "entering it (among them an Epoch as the date, this very object included, and datetime); "
+    "instants closer than 0.5 ms to an inserted leap second are moved to 0.5 ms before it (the "
+    "float JDE resolves 0.04 ms and the tuple returned has no name for 23:59:60.x)",
 ]
 
 Y0, Y1 = 1950, 2100
@@ -366,8 +370,143 @@ def body_deltat(case):
     return {"n": n, "nt": nt, "labels": labels, "show": {"worst": worst}}
 
 
+# ------------------------------------------------------------------ generated instants
+
+INSTANT_FORMS = ["ctor", "tuple", "set", "fractional_day", "set_self", "from_epoch", "datetime",
+                 "set_other"]
+
+
+def _build_instant(y, m, d, sod, form, kw):
+    """The civil instant y-m-d + sod seconds, entered with the keywords kw in one of the
+    documented ways; returns (epoch, seconds actually entered)."""
+    h = int(sod // 3600)
+    mi = int((sod - h * 3600) // 60)
+    s = sod - h * 3600 - mi * 60
+    if not (0 <= s < 60):           # float edge: keep the fields valid
+        s = 0.0 if s < 0 else math.nextafter(60.0, 0.0)
+    entered = F(h * 3600 + mi * 60) + F(s)
+    if form == "ctor":
+        return Epoch(y, m, d, h, mi, s, **kw), entered
+    if form == "tuple":
+        return Epoch((y, m, d, h, mi, s), **kw), entered
+    if form == "set":
+        e = Epoch(2451545.0)
+        e.set(y, m, d, h, mi, s, **kw)
+        return e, entered
+    if form == "fractional_day":
+        dd = d + sod / 86400.0
+        if int(dd) != d:
+            dd = float(d)
+        return Epoch(y, m, dd, **kw), (F(dd) - d) * 86400
+    if form == "datetime":
+        import datetime
+        us = int(round((s - int(s)) * 1e6))
+        if us > 999999:
+            us = 999999
+        dt = datetime.datetime(y, m, d, h, mi, int(s), us)
+        return Epoch(dt, **kw), F(h * 3600 + mi * 60 + int(s)) + F(us, 10 ** 6)
+    # an Epoch given as the date: its JDE is the value the keywords apply to
+    plain = Epoch(y, m, d, h, mi, s)
+    if form == "set_self":
+        plain.set(plain, **kw)
+        return plain, entered
+    if form == "set_other":
+        e = Epoch(1987, 6, 19.5, utc=True)
+        e.set(plain, **kw)
+        return e, entered
+    return Epoch(plain, **kw), entered
+
+
+def body_instant(case):
+    y, m, d, sod, form = case["year"], case["month"], case["day"], case["sod"], case["form"]
+    ov = case.get("override")
+    labels = ["form_" + form]
+    if sod > 86399.9995 and d == cal.month_len(y, m) and leap.precedes_leap_second(y, m):
+        # the float JDE resolves 0.04 ms: an instant closer than that to an inserted leap second
+        # may be stored inside it, where a (year, month, day) tuple has no name for it
+        sod = 86399.9995
+        labels.append("kept_0.5ms_clear_of_inserted_leap_second")
+    kw = {"utc": True} if ov is None else {"leap_seconds": ov}
+    if ov is not None and case.get("both"):
+        kw["utc"] = True
+    a, entered = _build_instant(y, m, d, sod, form, kw)
+    b, _ = _build_instant(y, m, d, sod, form if form not in ("set_self", "set_other", "from_epoch")
+                          else "ctor", {})
+    what = "the civil instant %d-%02d-%02d + %r s entered as %s with %s" % (
+        y, m, d, sod, form, ", ".join("%s=%r" % kv for kv in sorted(kw.items())))
+    off = (a.jde() - b.jde()) * 86400.0
+    if ov is None:
+        want = leap.tt_minus_utc(y, m) if y >= 1972 else 0.0
+    elif ov != 0 and y >= 1972:
+        want = leap.TT_MINUS_TAI + leap.TAI_MINUS_UTC_1972 + ov
+    else:
+        want = None
+    if want is not None and not abs(off - want) <= TOL_S:
+        raise Violation("%s is %.4f s later than the same date without the keyword; want %.3f s"
+                        % (what, off, want), site="Epoch._compute_jde", kind="utc_offset",
+                        date=[y, m, d], sod=sod, form=form, got=round(off, 4), want=want,
+                        err=round(off - want, 4))
+    # read-back, against the instant actually entered
+    want_x = cal.jdn(y, m, d) + entered / 86400
+    worst = 0.0
+    for meth in ("get_date", "get_full_date"):
+        g = getattr(a, meth)(**kw)
+        x = _instant_of_date(g, "%s: %s(%r)" % (what, meth, kw), "Epoch." + meth)
+        err = x - want_x
+        if abs(err) > MS:
+            raise Violation("%s: %s(%s) = %r, which is %.4f s away from the civil instant given"
+                            % (what, meth, ", ".join("%s=%r" % kv for kv in sorted(kw.items())),
+                               tuple(g), float(err) * 86400),
+                            site="Epoch." + meth, kind="utc_readback", date=[y, m, d], sod=sod,
+                            form=form, got=list(g), err_s=round(float(err) * 86400, 5))
+        worst = max(worst, abs(float(err)) * 86400)
+    ms = sod * 1000.0
+    if ms < 20 or ms > 86400000 - 20:
+        labels.append("within_20ms_of_midnight")
+    if abs(ms - round(ms)) < 1e-6:
+        labels.append("on_ms_grid")
+    if ov is not None:
+        labels.append("override")
+    if y < 1972:
+        labels.append("before_1972")
+    if sod < want if want else False:
+        labels.append("tt_instant_on_previous_utc_day_side")
+    nt = _nontrivial(y, m) or ov is not None or "within_20ms_of_midnight" in labels
+    return {"labels": labels, "nontrivial": bool(nt),
+            "show": {"offset_s": round(off, 4), "readback_err_s": round(worst, 6)}}
+
+
+def instant_cases():
+    from hypothesis import strategies as st
+    sod = st.one_of(
+        st.floats(0, 86400, exclude_max=True),
+        st.integers(0, 86399999).map(lambda k: k / 1000.0),
+        st.integers(0, 20000).map(lambda k: k / 1000000.0),                 # 0..20 ms, 1 us grid
+        st.integers(1, 20000).map(lambda k: 86400.0 - k / 1000000.0),
+        st.tuples(st.integers(0, 86399), st.sampled_from([0.0, 0.001, 0.0005, 0.999, 0.9995,
+                                                           1e-4, 0.5])).map(lambda t: t[0] + t[1]),
+        st.tuples(st.sampled_from([0, 1, 59, 60, 61, 3599, 3600, 43200, 86340, 86399]),
+                  st.floats(0, 1, exclude_max=True)).map(lambda t: t[0] + t[1]))
+    ym = st.one_of(st.tuples(st.integers(Y0, Y1), st.integers(1, 12)),
+                   st.tuples(st.integers(1970, 2018), st.sampled_from([1, 6, 7, 12])))
+
+    def build(ymv, dsel, sodv, form, ovsel, ov, both):
+        y, m = ymv
+        L = cal.month_len(y, m)
+        d = {0: 1, 1: L, 2: 15}.get(dsel, 1 + dsel % L)
+        c = {"year": y, "month": m, "day": d, "sod": min(sodv, math.nextafter(86400.0, 0.0)),
+             "form": form}
+        if ovsel == 0:
+            c["override"] = ov
+            c["both"] = both
+        return c
+    return st.builds(build, ym, st.integers(0, 40), sod, st.sampled_from(INSTANT_FORMS),
+                     st.integers(0, 3), st.sampled_from(OVERRIDES), st.booleans())
+
+
 CLAUSES = {"offset": body_offset, "readback": body_readback, "override": body_override,
-           "table": body_table, "anchors": body_anchors, "deltat": body_deltat}
+           "table": body_table, "anchors": body_anchors, "deltat": body_deltat,
+           "instant": body_instant}
 
 
 # ------------------------------------------------------------------ tasks
@@ -385,7 +524,14 @@ def tasks(tier, seed):
     for i in range(3):
         out.append(Task("t_years", clause="deltat", first=-2000, last=3000, shard=i, of=3))
     out.append(Task("t_anchors"))
+    n = 2500 if tier == "quick" else 40000
+    for i in range(6):
+        out.append(Task("t_instants", shard=i, n=n))
     return out
+
+
+def t_instants(rec, shard, n):
+    rec.given("instant", instant_cases(), n, shard=shard)
 
 
 def t_cells(rec, clause, shard, of):
